@@ -24,6 +24,7 @@ import JSV.Proofs.InfSound
 import JSV.Proofs.InfNamed
 import JSV.Proofs.InfTable
 import JSV.Proofs.InfTableTree
+import JSV.Proofs.InfTableDeep
 import JSV.Proofs.ResIso4
 import JSV.Proofs.InfEmbSound
 import JSV.Proofs.InfEmbNamed
@@ -291,6 +292,28 @@ theorem infer_some_table (opts : IOpts) (fuel : Nat) (T : GoType) (st : Store) (
     (h : forType opts fuel T st = .ok (r, st')) : ∃ id, r = some id := by
   obtain ⟨id, hid, _⟩ := inferFuel_modelsTT opts hnfs st fuel T [] st r st' (Ext.refl st) hdom hacc h
   exact ⟨id, hid⟩
+
+/-- **main, with entries of the type table of any depth**: `infer_sound_table` asks the entries to accept the encodings
+    with the fuel `depth u + 1` that the schema of the type itself would need, i.e. not to be deeper than that schema.
+    In general (`EntriesAcceptDeep opts st k false T`: every entry met accepts the encodings of its type with fuel
+    `depth u + 1 + k`, otherwise as `EntryAcceptsTree`; `k = 0` is `EntriesAcceptTree`) the inferred schema accepts
+    every encoded value with fuel `depth T + k`: the entries may be `k` levels deeper.
+    Proof: `forType` never looks at the underlying type of a declared type that has an entry, so the type may be padded
+    with `k` transparent declarations there (`Go.inferFuel_pad`), which changes neither typing nor json.Marshal and adds
+    `k` to the depth; then `infer_sound_table`. -/
+theorem infer_sound_table_deep (opts : IOpts) (fuel : Nat) (T : GoType) (st : Store) (id : NodeId) (st' : Store)
+    (re : String → String → Bool) (hnfs : opts.nullForSlices = true) (hdom : InDomainN T = true) (k : Nat)
+    (hacc : EntriesAcceptDeep opts st k false T) (h : forType opts fuel T st = .ok (some id, st')) (v : GoValue)
+    (hv : HasType T v) (fuel' : Nat) (hf : depth T + k ≤ fuel') :
+    Spec.valid (specEnvNoRefs st' re) fuel' id (encode T v) = some true := by
+  have h' : forType opts fuel (padT opts k T) st = .ok (some id, st') := by
+    show inferFuel opts fuel (padT opts k T) [] st = _
+    rw [inferFuel_pad opts k fuel T [] st]
+    exact h
+  have := infer_sound_table opts fuel (padT opts k T) st id st' re hnfs (by rw [inDomainN_pad]; exact hdom)
+    ((entriesAcceptTree_pad opts st k).1 T false hacc) h' v ((hasType_pad opts k T v).2 hv) fuel'
+    (Nat.le_trans (depth_pad_le opts k T) hf)
+  rwa [encode_pad] at this
 
 /-- entries without subschemas and references — the hypothesis of `infer_sound_table_partial` — are tree entries -/
 theorem leaf_entries_are_tree_entries (opts : IOpts) (st : Store) (T : GoType) (an : Bool)
@@ -672,6 +695,50 @@ example : (match forType { schemas := [("Point", 1)] } 2 (.ptr (.named "Point" (
       #[{ type := "object" }, { type := "object", allOf := some [0] }] with
     | .ok (some id, st') => [Spec.valid (specEnvNoRefs st') 2 id .null, Spec.valid (specEnvNoRefs st') 2 id (.obj [])]
     | _ => []) = [some false, some true] := by decide +kernel
+
+/-! ### … of `infer_sound_table_deep` (labelled tests) -/
+
+/-- `TypeSchemas[Celsius] = {"type":"number","allOf":[{"anyOf":[{"type":"number"},{"type":"string"}]}]}` (node 3): three
+    levels, one more than the schema `{"type":"number"}` of `float64` under a declared type -/
+def deepStore : Store := #[
+  { type := "number" },
+  { type := "string" },
+  { anyOf := some [0, 1] },
+  { type := "number", allOf := some [2] }]
+
+def deepOpts : IOpts := { schemas := [("Celsius", 3)] }
+
+theorem deep_num_valid (re : String → String → Bool) (q : Rat) :
+    Spec.valid (specEnvNoRefs deepStore re) 3 3 (.num q) = some true := by
+  by_cases hq : q.den = 1 <;>
+  simp [Spec.valid, evalFuel, evalStep, specEnvNoRefs, Store.get?, deepStore, kwRef, inPlace, kwDynamicRef, kwAllOf, kwAnyOf,
+    kwOneOf, kwNot, kwIf, kwItems, kwContains, kwProps, kwPropertyNames, kwDependentSchemas,
+    kwUnevaluatedItems, kwUnevaluatedProps, sequence, conj, typeOk, typeMatches, Json.typeName, hq, enumOk, constOk,
+    numericOk, stringOk, arrayLimitsOk, objectLimitsOk, validCount, validUnion, Ev.unions, Ev.union]
+
+/-- the entry accepts the encodings of `Celsius` with one level of extra depth (by value) … -/
+theorem deep_entryAccepts : EntryAcceptsDeep deepStore 3 (.basic "Float64") false 1 := by
+  refine ⟨_, 3, rfl, by decide, fun re v hv => ?_, fun h => nomatch h⟩
+  obtain ⟨q, rfl⟩ := float64_value hv
+  exact deep_num_valid re q
+
+/-- … but not with the fuel of `infer_sound_table`: two levels of fuel do not reach the leaves -/
+example : Spec.valid (specEnvNoRefs deepStore) 2 3 (.num 20) = none := by decide
+
+/-- `infer_sound_table_deep` applied to `[]Celsius`: `[20, 21.5]` is accepted, with fuel `depth T + 1` -/
+example (id : NodeId) (st' : Store)
+    (h : forType deepOpts 3 (.slice (.named "Celsius" (.basic "Float64"))) deepStore = .ok (some id, st')) :
+    Spec.valid (specEnvNoRefs st') 4 id (.arr [.num 20, .num (43/2)]) = some true := by
+  have := infer_sound_table_deep deepOpts 3 (.slice (.named "Celsius" (.basic "Float64"))) deepStore id st' (fun _ _ => false)
+    rfl (by decide) 1 (by simpa [EntriesAcceptDeep, deepOpts, Json.lookup] using deep_entryAccepts) h
+    (.slice [.float 20, .float (43/2)]) (by simp [HasType, basicHasType, floatKinds]) 4 (by decide)
+  simpa [encode] using this
+
+/-- … and evaluated -/
+example : (match forType deepOpts 3 (.slice (.named "Celsius" (.basic "Float64"))) deepStore with
+    | .ok (some id, st') => [Spec.valid (specEnvNoRefs st') 4 id (.arr [.num 20, .num (43/2)]),
+        Spec.valid (specEnvNoRefs st') 3 id (.arr [.num 20]), Spec.valid (specEnvNoRefs st') 4 id (.arr [.bool true])]
+    | _ => []) = [some true, none, some false] := by decide +kernel
 
 /-! ### entries WITH references (labelled tests): after cloning, a `#`-rooted reference is relative to the inferred root -/
 
